@@ -186,7 +186,7 @@ PROPS["C14"] = dict(
                  harnesses={"c14_native_initialisation": dict(anchor="random_spread",
                             bound="BOUNDED STAND-IN, native run: 40 seeds x sizes 0..4 x 4 domains / dimensions 0..5 for random_spread, random_permutation, random_bitstring"),
                             "c14_native_components": dict(anchor="initialisation and boundary-repair components",
-                            bound="BOUNDED STAND-IN, native run: RandomSpread/RandomPermutation/RandomBitstring/Empty components x sizes {0,1,2,7} x 16 seeds; Saturation/Toroidal/Mirror/CompleteOneTailedNormalCorrection components on an 18-point grid per coordinate x 3 domains x 8 seeds (bounds, unchanged-inside, idempotence)")})],
+                            bound="BOUNDED STAND-IN, native run: RandomSpread/RandomPermutation/RandomBitstring/Empty components x sizes {0,1,2,7} x 16 seeds; Saturation/Toroidal/Mirror/CompleteOneTailedNormalCorrection components on a 27-point grid per coordinate (up to 1e6 widths outside, every half width up to 5) x 3 domains x 8 seeds (bounds, unchanged-inside, idempotence)")})],
     min_obligations={"quick": 38, "thorough": 41},
     uncovered=["initialisation operators (rejection-sampling loops over a symbolic RNG are unbounded)", "resampling distribution",
                "boundary_constraint driver over populations"],
@@ -197,7 +197,10 @@ PROPS["C12"] = dict(
     explanation=("Verus: the replacement() driver extracted verbatim, verified against the C04 Populations contracts and an ARBITRARY "
                  "Replacement operator (unbounded). Kani: Hoare triples on the real replace kernels at enumerated sizes."),
     verus=[dict(name="driver", template="contracts/C12/driver.vrs", expect=["replacement"]),
-           dict(name="mu_plus_lambda", template="contracts/C12/mu_plus_lambda.vrs", expect=["<MuPlusLambda as Replacement<P>>::replace"])],
+           dict(name="mu_plus_lambda", template="contracts/C12/mu_plus_lambda.vrs", expect=["<MuPlusLambda as Replacement<P>>::replace"]),
+           dict(name="simple_ops", template="contracts/C12/simple_ops.vrs",
+                expect=["<DiscardOffspring as Replacement<P>>::replace", "<Generational as Replacement<P>>::replace",
+                        "<Merge as Replacement<P>>::replace", "<RandomReplacement as Replacement<P>>::replace"])],
     kani=[dict(files=["contracts/C12/c12.rs"])],
     native=[dict(files=["contracts/C12/c12_native.rs"],
                  harnesses={"c12_native_keep_better_at_index": dict(anchor="KeepBetterAtIndex::replace",
